@@ -99,6 +99,11 @@ def shards(tier, seed):
         for flag in (False, True):
             for part in range(parts):
                 out.append({"tomo": tomo, "shape": shape, "flag": flag, "n": per, "start": part * per, "weight": cost * per})
+    if tier == "quick":
+        # one qutrit process-tomography case per flag without the (2500-iteration) recovery run: keeps the
+        # dim > 2 branches of the variable-level gate projections inside the quick tier (seeded change C10-2)
+        for flag in (False, True):
+            out.append({"tomo": "qpt", "shape": "S3", "flag": flag, "n": 1, "start": 0, "weight": 80.0, "lite": True})
     return out
 
 
@@ -887,7 +892,9 @@ def run_shard(ctx):
                     ds = far[int(rng.integers(0, len(far)))] if rng.random() < 0.7 else noisy[int(rng.integers(0, len(noisy)))]
                     runs.append((an, ln, "identity", ds, dict(max_iteration_optimization=cap, mode_proj_order=rorder()), "core"))
             # (d) recovery by backtracking: one squared-error and one relative-entropy run (generic / fast alternate)
-            if ti["kappa"] <= KAPPA_REC:
+            if P.get("lite"):
+                ctx.count("recovery-not-run:lite-shard")
+            elif ti["kappa"] <= KAPPA_REC:
                 gsel = (i + int(rng.integers(0, 2))) % 2
                 rec_losses = ["fse", "fre"] if (big or shape != "S1") else [["se", "fse"][gsel], ["re", "fre"][1 - gsel]]
                 for ln in rec_losses:
